@@ -143,8 +143,91 @@ fn case_typed<S: Spec>(sub: &str, id: u64, forced: Option<(usize, bool)>, first_
     r.sample(json!({"type": S::NAME, "seed": hex(&seed), "history_before_snapshot": show_ops(&hist), "continuation": show_ops(&cont), "image_bytes": bytes.len()}));
 }
 
+/// serde of the public core types (and hand-built BlockRng wrappers around them)
+fn core_case(sub: &str, id: u64, r: &mut Report) {
+    use rand_core::block::{BlockRng, BlockRng64, BlockRngCore};
+    use rand_core::{RngCore, SeedableRng};
+    let mut p = Prng::new(id);
+    let seed: [u8; 32] = p.bytes(32).try_into().unwrap();
+    let gens = p.below(4) as usize;
+    if p.chance(1, 2) {
+        type C = rand_isaac::isaac::IsaacCore;
+        let mut a = C::from_seed(seed);
+        let mut res = <C as BlockRngCore>::Results::default();
+        for _ in 0..gens { a.generate(&mut res); }
+        let twin = a.clone();
+        for (fmt, restored) in [("bincode", bincode::deserialize::<C>(&bincode::serialize(&a).unwrap()).map_err(|e| e.to_string())),
+                                ("json", serde_json::from_str::<C>(&serde_json::to_string(&a).unwrap()).map_err(|e| e.to_string()))] {
+            r.eval();
+            match restored {
+                Ok(mut b) => {
+                    let mut t = twin.clone();
+                    let (mut rb, mut rt) = (<C as BlockRngCore>::Results::default(), <C as BlockRngCore>::Results::default());
+                    let eq0 = b == t;
+                    let mut same = true;
+                    for _ in 0..3 { b.generate(&mut rb); t.generate(&mut rt); if !(rb == rt) { same = false; } }
+                    if !eq0 || !same {
+                        r.violation(format!("IsaacCore:restored_core_differs:{}", fmt), sub, id, json!({"seed": hex(&seed), "generated_blocks": gens, "equal": eq0, "same_blocks": same}));
+                        return;
+                    }
+                }
+                Err(e) => { r.violation(format!("IsaacCore:deserialize_failed:{}", fmt), sub, id, json!({"error": e})); return; }
+            }
+        }
+        // BlockRng<IsaacCore> built by hand, snapshot mid-block
+        let mut w = BlockRng::new(C::from_seed(seed));
+        for _ in 0..p.below(600) { w.next_u32(); }
+        let mut w2: BlockRng<C> = bincode::deserialize(&bincode::serialize(&w).unwrap()).unwrap();
+        for k in 0..600 {
+            r.eval();
+            if w.next_u32() != w2.next_u32() {
+                r.violation("BlockRng<IsaacCore>:restored_diverges".into(), sub, id, json!({"seed": hex(&seed), "position": k}));
+                return;
+            }
+        }
+        r.cov("cores:IsaacCore");
+    } else {
+        type C = rand_isaac::isaac64::Isaac64Core;
+        let mut a = C::from_seed(seed);
+        let mut res = <C as BlockRngCore>::Results::default();
+        for _ in 0..gens { a.generate(&mut res); }
+        let twin = a.clone();
+        for (fmt, restored) in [("bincode", bincode::deserialize::<C>(&bincode::serialize(&a).unwrap()).map_err(|e| e.to_string())),
+                                ("json", serde_json::from_str::<C>(&serde_json::to_string(&a).unwrap()).map_err(|e| e.to_string()))] {
+            r.eval();
+            match restored {
+                Ok(mut b) => {
+                    let mut t = twin.clone();
+                    let (mut rb, mut rt) = (<C as BlockRngCore>::Results::default(), <C as BlockRngCore>::Results::default());
+                    let eq0 = b == t;
+                    let mut same = true;
+                    for _ in 0..3 { b.generate(&mut rb); t.generate(&mut rt); if !(rb == rt) { same = false; } }
+                    if !eq0 || !same {
+                        r.violation(format!("Isaac64Core:restored_core_differs:{}", fmt), sub, id, json!({"seed": hex(&seed), "generated_blocks": gens, "equal": eq0, "same_blocks": same}));
+                        return;
+                    }
+                }
+                Err(e) => { r.violation(format!("Isaac64Core:deserialize_failed:{}", fmt), sub, id, json!({"error": e})); return; }
+            }
+        }
+        let mut w = BlockRng64::new(C::from_seed(seed));
+        for _ in 0..p.below(600) { w.next_u32(); }
+        let mut w2: BlockRng64<C> = bincode::deserialize(&bincode::serialize(&w).unwrap()).unwrap();
+        for k in 0..600 {
+            r.eval();
+            if w.next_u32() != w2.next_u32() {
+                r.violation("BlockRng64<Isaac64Core>:restored_diverges".into(), sub, id, json!({"seed": hex(&seed), "position": k}));
+                return;
+            }
+        }
+        r.cov("cores:Isaac64Core");
+    }
+    r.distinct(hkey(&[&"cores", &seed[..].to_vec(), &gens]));
+}
+
 fn case(sub: &str, id: u64, r: &mut Report) {
     match sub {
+        "cores" => core_case(sub, id, r),
         // forced snapshot index: id = type*4096 + index*2 + half
         "index" => {
             let ti = (id / 4096) as usize;
@@ -186,7 +269,10 @@ pub fn run(ctx: &Ctx, only: Option<&Only>) -> Report {
         }
     });
     let secs = if ctx.tier_thorough { ctx.budget_s } else { 0.0 };
-    total.merge(drive(ctx, "snapshot", 20_000, secs, |id, r| case("snapshot", id, r)));
+    total.merge(drive(ctx, "snapshot", 20_000, secs * 0.9, |id, r| case("snapshot", id, r)));
+    total.merge(drive(ctx, "cores", 1_000, secs * 0.1, |id, r| case("cores", id, r)));
+    total.floor("cores:IsaacCore", 100);
+    total.floor("cores:Isaac64Core", 100);
     for &ti in &SERDE_TYPES {
         total.floor(&format!("type:{}", TYPE_NAMES[ti]), 100);
     }
